@@ -251,6 +251,11 @@ func (h *handler1) handleClientPublish(ctx context.Context, snPublish *snPkts1.P
 	default:
 		return fmt.Errorf("invalid topic id type %d", snPublish.TopicIDType)
 	}
+	// MQTT forbids wildcard characters in a PUBLISH topic name (e.g. the short
+	// topic "+/" is a valid filter but not a valid topic name).
+	if hasWildcard(topic) {
+		return fmt.Errorf("wildcard characters in PUBLISH topic %q", topic)
+	}
 	if snPublish.QOS == 1 {
 		h.transactions.Store(msgID, newClientPublishQOS1Transaction(ctx, h, msgID, snPublish.TopicID))
 	}
@@ -742,6 +747,13 @@ func (h *handler1) handleMqttSn(ctx context.Context, pkt snPkts.Packet) error {
 
 	// Client REGISTER transaction.
 	case *snPkts1.Register:
+		// Only topic names (not topic filters) can be registered: a registered
+		// topic is used in PUBLISH packets.
+		if hasWildcard(snPkt.TopicName) {
+			m2 := snPkts1.NewRegack(0, snPkts1.RC_NOT_SUPPORTED)
+			m2.CopyMessageID(snPkt)
+			return h.snSend(m2)
+		}
 		returnCode := snPkts1.RC_ACCEPTED
 		topicID, err := h.registerTopic(snPkt.TopicName)
 		if err != nil {
